@@ -599,3 +599,13 @@ package tchannel
 //@   label invariants-kept
 //@   ensures c16ChanOK(ch) && c16ConnsNonNil(ch)
 //@   property C16
+
+// "no peer list references it": a peer's reference count goes up by one exactly
+// when a list gains an entry for it, and is untouched when the list already
+// had one (whichever of the two presence checks notices it).
+//@ func (l *PeerList) Add(hostPort string) (p *Peer)
+//@   label reference-counted-once-per-list-entry
+//@   ensures old(has(l.peersByHostPort, hostPort)) ==> p.scCount == old(l.peersByHostPort[hostPort].Peer.scCount)
+//@   ensures !old(has(l.peersByHostPort, hostPort)) && old(has(l.parent.peersByHostPort, hostPort)) ==> p.scCount == uint32(old(l.parent.peersByHostPort[hostPort].scCount) + 1)
+//@   ensures !old(has(l.peersByHostPort, hostPort)) && !old(has(l.parent.peersByHostPort, hostPort)) ==> p.scCount == 1
+//@   property C16
